@@ -73,11 +73,15 @@ type Net struct {
 	Delivered   int
 	// WriteErrors counts frames lost because they had no room for the link margins.
 	WriteErrors int
+	// Prompt makes RunFor pick up a frame in the simulated instant it was handed to a link
+	// (zero latency unless the tape decides otherwise) instead of at its next 50 ms look.
+	Prompt bool
+	wakeCh chan struct{}
 }
 
 // New returns an empty network bound to a run.
 func New(e *core.Env) *Net {
-	return &Net{E: e, Record: true}
+	return &Net{E: e, Record: true, wakeCh: make(chan struct{}, 1)}
 }
 
 // Link is one end of a simulated connection. It implements peering.Link.
@@ -186,6 +190,12 @@ func (l *Link) send(f frame.Frame, prio bool) error {
 		ID: n.nextID, Conn: l.conn, Dir: l.dir, Seq: l.sendSeq,
 		From: l, To: l.Other, Data: cp, Prio: prio, SentT: time.Now(),
 	})
+	if n.Prompt {
+		select {
+		case n.wakeCh <- struct{}{}:
+		default:
+		}
+	}
 	return nil
 }
 
@@ -487,7 +497,16 @@ func (n *Net) RunFor(tp *core.Tape, d time.Duration, maxSteps int) int {
 		if rem := time.Until(end); rem < step {
 			step = rem
 		}
-		time.Sleep(step)
+		if n.Prompt {
+			t := time.NewTimer(step)
+			select {
+			case <-n.wakeCh:
+				t.Stop()
+			case <-t.C:
+			}
+		} else {
+			time.Sleep(step)
+		}
 		wait()
 	}
 	return steps
